@@ -249,26 +249,92 @@ def storage(seed, nops=200, comps=(0, 1, 2, 3, 4, 5)):
 
 
 def graphs(seed, nhandlers=8, nsends=6, panic_p=0.0, take_p=0.2):
-    """C04/C07/C11/C13: random handler graphs over the user events, then initial events."""
+    """C04/C07/C09/C11/C13: dense random handler graphs over the user and structural events, then initial events.
+    Handlers mostly send events that other handlers listen for, so propagation nests (budget 24 sends per top-level op)."""
     r = random.Random(seed)
     ctx = Ctx(r, (0, 1))
     ops = []
-    for _ in range(r.randint(1, 4)):
+    ne = r.randint(2, 5)
+    for _ in range(ne):
         ops.append("spawn")
         ctx.nspawn += 1
-        if r.random() < 0.7:
-            ops.append(f"insert #{ctx.nspawn - 1} {ctx.k()} {r.randrange(50)}")
-    for i in range(r.randint(2, nhandlers)):
-        recv = r.choice(USER_G + ["T0", "T0", "T1", "Despawn", "Spawn", "InsK0", "RemK0"])
-        sends = r.sample(USER_G + ["T0", "T1", "Spawn", "Despawn", "InsK0", "RemK0", "InsK1"], r.randint(0, 4))
-        ops.append(rand_handler(ctx, recv=recv, sends=sends, nfetch=r.choice([0, 0, 1]), allow_panic=panic_p, take_p=take_p,
-                                body_len=(1, 4), mut_p=0.4))
-        if r.random() < 0.15 and ctx.names:
+        if r.random() < 0.8:
+            ops.append(f"insert #{ctx.nspawn - 1} K0 {r.randrange(50)}")
+        if r.random() < 0.3:
+            ops.append(f"insert #{ctx.nspawn - 1} K1 {r.randrange(50)}")
+    pool = USER_G + ["T0", "T0", "T1", "Despawn", "Spawn", "InsK0", "RemK0", "InsK1"]
+    nh = r.randint(3, nhandlers)
+    recvs = [r.choice(USER_G + USER_G + ["T0", "T0", "T1", "Despawn", "Spawn", "InsK0", "RemK0"]) for _ in range(nh)]
+    listened = set(recvs)
+    for i, recv in enumerate(recvs):
+        targeted = is_targeted(recv)
+        mutable = (recv in USER_G or targeted) and r.random() < 0.4
+        name = f"h{i}"
+        ctx.names.append(name)
+        params = []
+        if targeted:
+            q = r.choice(["()", "E", "E", "r0", "(E,?m1)", "!r0"])
+            params.append(f"R:{recv}:{'m' if mutable else 'i'}:{q}")
+        else:
+            params.append(f"R:{recv}:{'m' if mutable else 'i'}")
+        has_fetch = r.random() < 0.3
+        if has_fetch:
+            params.append("F:" + r.choice(["(E,r0)", "(E,?r0,?r1,?r2)", "E", "(E,m0)", "!r0"]))
+        sends = r.sample(sorted(set(pool)), r.randint(1, 4))
+        # bias towards events somebody listens for
+        sends = list(dict.fromkeys(sends + [x for x in r.sample(sorted(listened), min(2, len(listened))) if x in pool]))
+        if r.random() < 0.9:
+            params.append("Snd:" + ",".join(sends))
+        else:
+            sends = []
+        body = []
+        for _ in range(r.randint(1, 5)):
+            x = r.random()
+            if sends and x < 0.7:
+                ev = r.choice(sends)
+                tg = rand_tgt(r, ctx, targeted)
+                if ev in USER_G:
+                    body.append(f"send:{ev}")
+                elif ev in USER_T:
+                    body.append(f"sendto:{ev}:{tg}")
+                elif ev == "Spawn":
+                    body.append("spawn")
+                elif ev == "Despawn":
+                    body.append(f"despawn:{tg}")
+                elif ev.startswith("InsK"):
+                    body.append(f"ins:{tg}:K{ev[4:]}:{r.randrange(100)}")
+                else:
+                    body.append(f"rem:{tg}:K{ev[4:]}")
+            elif mutable and x < 0.7 + take_p:
+                body.append("take")
+            elif has_fetch and x < 0.95:
+                body.append(r.choice(["iter:1", "iter:1", "bump:1", f"get:1:{rand_tgt(r, ctx, targeted)}"]))
+            elif targeted and x < 0.97:
+                body.append("recv")
+            elif r.random() < panic_p:
+                body.append("panic")
+        if panic_p and r.random() < panic_p * 0.6:
+            body.insert(r.randint(0, len(body)), "panic")
+        ops.append(f"addh name={name} prio={r.choice('hmmml')} params={';'.join(params)} body={','.join(body)}")
+        if r.random() < 0.08 and ctx.names:
             ops.append(f"rmh {r.choice(ctx.names)}")
-    for _ in range(r.randint(2, nsends)):
+    for _ in range(r.randint(3, nsends + 2)):
         x = r.random()
-        if x < 0.6:
-            ops.append(send_op(ctx))
+        ev = r.choice(sorted(listened))
+        if x < 0.75:
+            if ev in USER_G:
+                ops.append(f"send {ev}")
+            elif ev in USER_T:
+                ops.append(f"sendto {ev} {ctx.ent(1)}")
+            elif ev == "Spawn":
+                ops.append("spawn")
+                ctx.nspawn += 1
+            elif ev == "Despawn":
+                ops.append(f"despawn {ctx.ent(1)}")
+            elif ev.startswith("InsK"):
+                ops.append(f"insert {ctx.ent(1)} K{ev[4:]} {r.randrange(100)}")
+            else:
+                ops.append(f"remove {ctx.ent(1)} K{ev[4:]}")
         else:
             ops.append(structural_op(ctx))
     ops.append("drop")
